@@ -27,6 +27,7 @@ D = decimal.Decimal
 LITS = ['1', '2.5', '0', '1,000']
 LITS_R = ['2.5', '0']            # reduced literal set (one non-zero, one zero) for the widest pair/chain products
 MARK = '~'                       # blank slot around a binary operator
+SAME = 'the-same-object-as-the-left-operand'
 
 
 # ---------------------------------------------------------------------------------------------
@@ -260,7 +261,7 @@ def describe_spec(spec: list) -> str:
         return f'Decimal({spec[1]!r})'
     if spec[0] == 'r':
         return f'({describe_spec(spec[1])} {spec[2]} {describe_spec(spec[3])})'
-    if spec[0] == 'same':
+    if spec[0] in ('same', SAME):
         return '<the same object>'
     if spec[2] == 'free':
         return f'parse({spec[1]!r})'
@@ -376,7 +377,7 @@ def run_app(app: dict, res: core.CaseResult) -> None:
         x = build(app['x'])
         if form == 'unary':
             y = None
-        elif app['y'][0] == 'same':
+        elif app['y'][0] in ('same', SAME):
             y = x
         else:
             y = build(app['y'])
@@ -578,7 +579,7 @@ def main(run: core.Run) -> None:
             items.append({'kind': 'pair', 'x': x, 'y': sc, 'ops': OPS, 'forms': ['plain', 'inplace']})
             items.append({'kind': 'pair', 'x': sc, 'y': x, 'ops': OPS, 'forms': ['plain']})
         items.append({'kind': 'pair', 'x': x, 'y': None, 'ops': '', 'forms': ['unary']})
-        items.append({'kind': 'pair', 'x': x, 'y': ['same'], 'ops': OPS, 'forms': ['plain']})
+        items.append({'kind': 'pair', 'x': x, 'y': [SAME], 'ops': OPS, 'forms': ['plain']})
     run.run_cases(run_case, items, f'part 2b: {len(singles)} expressions x (3 ints, 3 Decimals) x 4 ops x (plain, reflected, '
                   'in-place); unary +/-; x op x')
 
@@ -599,7 +600,7 @@ def main(run: core.Run) -> None:
                 # both attached, in two documents
                 items.append({'kind': 'pair', 'x': xa, 'y': ['e', yt, 'posting'], 'ops': OPS, 'forms': ['plain']})
             items.append({'kind': 'pair', 'x': xa, 'y': None, 'ops': '', 'forms': ['unary']})
-            items.append({'kind': 'pair', 'x': xa, 'y': ['same'], 'ops': OPS, 'forms': ['plain']})
+            items.append({'kind': 'pair', 'x': xa, 'y': [SAME], 'ops': OPS, 'forms': ['plain']})
             for sc in [['i', n] for n in INTS] + [['d', s] for s in DECS]:
                 items.append({'kind': 'pair', 'x': xa, 'y': sc, 'ops': OPS, 'forms': ['plain', 'inplace']})
                 items.append({'kind': 'pair', 'x': sc, 'y': xa, 'ops': OPS, 'forms': ['plain']})
